@@ -155,7 +155,7 @@ package packet
 //@ interface Generic.String() (s string)
 //@   modifies nothing
 //@ interface Generic.Len() (n int)
-//@   ensures [nonneg] n >= 0
+//@   ensures [nonneg] n >= 0 && n == plen($recv)
 //@   modifies nothing
 //
 //@ func (c *Connect) Type() (t Type)
